@@ -204,6 +204,27 @@ func evalGen(tier string, r *rng, emit func(string)) {
 			emit(prop + ";steps=200000;" + genPrecCase(r))
 			continue
 		}
+		var fam []string
+		switch {
+		case prop == "C04" && i%2 == 1:
+			fam = famCache(r)
+		case prop == "C05" && i%2 == 1:
+			fam = famRegs(r)
+		case prop == "C07" && i%3 == 1:
+			fam = famPanic(r)
+		case prop == "C01" && i%8 == 1:
+			fam = famCache(r)
+		case prop == "C01" && i%8 == 5:
+			fam = famRegs(r)
+		}
+		if fam != nil {
+			hs := make([]string, len(fam))
+			for j, t := range fam {
+				hs[j] = hx(t)
+			}
+			emit(prop + ";steps=200000;" + strings.Join(hs, "|"))
+			continue
+		}
 		stmts := genEvalProgram(r, 3+r.intn(8), prop == "C07", false)
 		// either one input holding the whole program, or one input per top-level statement
 		var texts []string
